@@ -205,6 +205,29 @@ Definition accepts (m : auth_mode) (r : peer_rel) : bool :=
 Definition upstream_accepts (insecure_skip : bool) (r : peer_rel) (name_ok : bool) : bool :=
   orb insecure_skip (andb (match r with PeerRightCA => true | _ => false end) name_ok).
 
+(* the CA an upstream (cluster) TLS config trusts, and who issued the certificate the upstream presents.
+   CaNone: no ca_cert; CaSdsNoValidation: SDS secret without a validation context.  In both cases the x509 pool is nil,
+   which for crypto/tls means the HOST's root set - the certificates of a test CA never chain to it. *)
+Inductive ca_cfg := CaRight | CaOther | CaNone | CaSdsNoValidation.
+Inductive issuer := IssRight | IssOther | IssSelf.
+Inductive name_cfg := NameMatches | NameDiffers | NameUnset.
+
+Definition issued_by_configured_ca (ca : ca_cfg) (i : issuer) : bool :=
+  match ca, i with CaRight, IssRight => true | CaOther, IssOther => true | _, _ => false end.
+
+(* relation of the presented certificate to the configured CA *)
+Definition peer_rel_of (ca : ca_cfg) (i : issuer) (expired : bool) : peer_rel :=
+  match i with
+  | IssSelf => PeerSelfSigned
+  | _ => if issued_by_configured_ca ca i then (if expired then PeerExpired else PeerRightCA) else PeerOtherCA
+  end.
+
+(* SetClientConfig with the default hooks, every dimension: without insecure_skip the handshake completes only for a valid
+   chain to the configured CA AND a configured server_name the certificate is valid for (an unset server_name makes
+   crypto/tls refuse the config: "either ServerName or InsecureSkipVerify must be specified") *)
+Definition upstream_handshake (insecure_skip : bool) (ca : ca_cfg) (i : issuer) (expired : bool) (n : name_cfg) : bool :=
+  upstream_accepts insecure_skip (peer_rel_of ca i expired) (match n with NameMatches => true | _ => false end).
+
 (* ---------- Conn(): TLS or plaintext ---------- *)
 Inductive conn_mode := ModeRaw | ModeTLS | ModePlain.
 Definition conn_mode_of (is_tcp any_ready inspector : bool) (first_byte : N) : conn_mode :=
@@ -264,9 +287,9 @@ Definition auth_case_ok (k : auth_case) : bool :=
 Definition auth_mismatches (l : list auth_case) : list nat := mismatches_from auth_case_ok 0 l.
 
 (* upstream handshake: insecure_skip, relation, name_ok, accepted by the real MOSN client *)
-Definition up_case := (bool * peer_rel * bool * bool)%type.
+Definition up_case := (bool * ca_cfg * issuer * bool * name_cfg * bool)%type.
 Definition up_case_ok (k : up_case) : bool :=
-  match k with (sk, r, nok, got) => Bool.eqb (upstream_accepts sk r nok) got end.
+  match k with (sk, ca, i, ex, n, got) => Bool.eqb (upstream_handshake sk ca i ex n) got end.
 Definition up_mismatches (l : list up_case) : list nat := mismatches_from up_case_ok 0 l.
 
 (* Conn(): any_ready, inspector, first byte, observed: 0 raw, 1 tls, 2 plain *)
